@@ -2631,12 +2631,13 @@ func (rl *clientConnReadLoop) handleResponse(cs *clientStream, f *MetaHeadersFra
 		res.Uncompressed = true
 	} else if cs.cc.t.AutoDecompression {
 		contentEncoding := res.Header.Get("Content-Encoding")
-		if contentEncoding != "" {
+		// only touch the response if the content coding is supported
+		if cr := compress.NewCompressReader(res.Body, contentEncoding); cr != nil {
 			res.Header.Del("Content-Encoding")
 			res.Header.Del("Content-Length")
 			res.ContentLength = -1
 			res.Uncompressed = true
-			res.Body = compress.NewCompressReader(res.Body, contentEncoding)
+			res.Body = cr
 		}
 	}
 
